@@ -38,6 +38,8 @@ type setting struct {
 	Choices []string
 	Formats []string
 	PH      string // placeholder validated in place of an empty value ("" when none)
+	OmitE   bool   // yaml tag has omitempty: a zero value is absent from what validation pass 2 sees
+	ElemT   string // metadata elementType validation (lists and maps)
 }
 
 // the three literal substitutions in validateConfigs (configLoadHelpers.go): not reachable by
@@ -188,6 +190,11 @@ func buildTable() []setting {
 				panic("cmdenv-tagged setting of a kind the harness does not know: " + strings.Join(ns, ".") + " " + ft.String())
 			}
 			s := setting{Path: strings.Join(ns, "."), Index: ix, YAML: ns, Kind: k, GoType: ft.String()}
+			for _, o := range strings.Split(f.Tag.Get("yaml"), ",")[1:] {
+				if o == "omitempty" {
+					s.OmitE = true
+				}
+			}
 			if tags != "" {
 				for _, tg := range strings.Split(tags, ",") {
 					cf, ok := cmdT.FieldByName(tg)
@@ -207,6 +214,8 @@ func buildTable() []setting {
 					switch v.Type {
 					case "choice":
 						s.Echo = true
+					case "elementType":
+						s.ElemT, _ = v.Arg.(string)
 					case "format":
 						a, _ := v.Arg.(string)
 						s.Formats = append(s.Formats, a)
